@@ -75,7 +75,7 @@ def _tz_of(x):
 def byte_of(v, i):
   """i-th least significant byte of (two's complement) SymInt v as SymInt 0..255"""
   if MODE == 'bv':
-    return SymInt(z3.ZeroExt(W - 8, z3.Extract(8 * i + 7, 8 * i, v.e)), 0, 255)
+    return SymInt(z3.simplify(z3.ZeroExt(W - 8, z3.Extract(8 * i + 7, 8 * i, v.e))), 0, 255)
   return SymInt((v.e / (1 << (8 * i))) % 256, 0, 255)
 
 
@@ -138,8 +138,17 @@ class Engine:
       raise self.poisoned
 
   def fresh_int(self, name, lo, hi):
-    v = z3.BitVec(name, W) if MODE == 'bv' else z3.Int(name)
-    self.solver.add(v >= lo, v <= hi)
+    if MODE == 'bv' and lo >= 0:
+      # a k-bit variable zero-extended to W bits: the range is structural, and Extract/Concat round trips through
+      # struct pack/unpack simplify back to the same term (keeps checksum terms syntactically equal on both sides)
+      k = max(hi.bit_length(), 1)
+      v0 = z3.BitVec(name, k)
+      v = z3.ZeroExt(W - k, v0) if k < W else v0
+      if lo > 0: self.solver.add(z3.UGE(v0, lo))
+      if hi != (1 << k) - 1: self.solver.add(z3.ULE(v0, hi))
+    else:
+      v = z3.BitVec(name, W) if MODE == 'bv' else z3.Int(name)
+      self.solver.add(v >= lo, v <= hi)
     self._model = None
     s = SymInt(v, lo, hi)
     self.inputs.append((name, 'int', v))
